@@ -37,20 +37,20 @@ def run_future_part(ctx):
     # E3 / E4 ------------------------------------------------------------------------------------
     rng = random.Random(ctx.seed * 17 + 3)
     progs = [fc.gen.MC['timed'], fc.gen.MC['timed_d']]
-    want = 40 if thorough else 8
+    want = 200 if thorough else 8
     while len(progs) < want + 2:
         kind = 'pool' if len(progs) % 2 else 'q'
         p = fc.gen.random_program(rng, kind)
         if 'wf.' in p or 'wu.' in p:
             progs.append(p)
-    tr = fc.run_and_validate(ctx, exe, progs, WHAT, 'timed-wait programs, controlled runs', n=8 if thorough else 4,
+    tr = fc.run_and_validate(ctx, exe, progs, WHAT, 'timed-wait programs, controlled runs', n=10 if thorough else 4,
                              seed=ctx.seed + 5, pct=3, spurious=True, fixed=fixed)[0]
     if tr:
         ctx.sample_trace(tr, 10, skip=20)
 
     # E5 ---------------------------------------------------------------------------------------
     obs = os.path.join(ctx.work, 'future_obs.ndjson')
-    rounds = 1500 if thorough else 150
+    rounds = 5000 if thorough else 150
     tot, _ = ctx.driver(exe, ['--out', obs, '--free', rounds, '--seed', ctx.seed], WHAT,
                         label='free-running Future timed waits (real futex, steady_clock)', timeout=900)
     ctx.validate(fc.SPEC, 'FutureObs.tla', 'FutureObs.cfg', obs, WHAT + ' (real time)', executions=tot.get('steps', 0),
